@@ -41,7 +41,10 @@ def apply_sar_adc_with_noise(
     ndarray
         2D digitized array.
     """
-    data_digitized_2d = np.zeros((num_rows, num_cols))
+    # Accumulate the code in the unsigned integer output type: a float accumulator
+    # cannot hold every code above 2**53 and rounds full scale up to 2**adc_bits
+    dtype = get_dtype(adc_bits)
+    data_digitized_2d = np.zeros((num_rows, num_cols), dtype=dtype)
 
     signal_normalized_2d = signal_2d.copy()
 
@@ -49,7 +52,7 @@ def apply_sar_adc_with_noise(
     ref_2d = np.full(shape=(num_rows, num_cols), fill_value=max_volt / 2.0)
 
     # For each bits, compare the value of the ref to the capacitance value
-    for i in np.arange(adc_bits):
+    for i in range(adc_bits):
         strength = strengths[i]
         noise = noises[i]
 
@@ -60,7 +63,7 @@ def apply_sar_adc_with_noise(
 
         # All data that is higher than the ref is equal to the dig. value
         mask_2d: np.ndarray = signal_normalized_2d >= ref_2d
-        data_digitized_2d += digital_value * mask_2d
+        data_digitized_2d += digital_value * mask_2d.astype(dtype)
 
         # Subtract ref value from the data
         signal_normalized_2d -= ref_2d * mask_2d
@@ -68,9 +71,7 @@ def apply_sar_adc_with_noise(
         # Divide reference voltage by 2 for next step
         ref_2d /= 2.0
 
-    dtype = get_dtype(adc_bits)
-
-    return data_digitized_2d.astype(dtype)
+    return data_digitized_2d
 
 
 # TODO: documentation, range volt - only max is used
